@@ -406,7 +406,7 @@ class Gen:
         labels = {}
         for i in range(96):
             if r.random() < 0.2:
-                labels[i] = self.text(8, allow_empty=True)
+                labels[i] = self.text(8, allow_empty=True) if r.random() < 0.85 else r.choice(["%", "->", "***", "\u266a", "-", "_", "e\u0301", "\u2126", "A\u030a\u0327", "Arpeggiator", "volume"])
         d["payload"] = {"project": emb, "mappings": mappings, "labels_all": labels, "count": n,
                         "unmapped_values": {i: self.pick(0, 44100, 0) for i in range(96) if r.random() < 0.5}}
         return d
